@@ -19,6 +19,7 @@ import (
 	"runtime"
 	"sort"
 	"sync"
+	"sync/atomic"
 	"testing"
 	"time"
 
@@ -304,6 +305,30 @@ func (e *c13Env) apply(op *c13Op, o *c13Obs) {
 			}
 			o.Unconf = append(o.Unconf, [][]int{p, q})
 		}
+	case "putrace":
+		// a submission whose validation (no pool lock) and insertion (under the lock) are
+		// separated by a block arrival: hold the pool lock, let the block notification queue
+		// for it first, then start the submission (it validates against the old state and
+		// queues behind), then release the lock.
+		blk := e.mkBlock(op.State, op.Kind, op.Dirty)
+		var seq int32
+		var blockAt, putAt int32
+		var perr error
+		var wg sync.WaitGroup
+		mp.Lock()
+		wg.Add(2)
+		go func() { defer wg.Done(); mp.removeOnBlockArrival(blk); blockAt = atomic.AddInt32(&seq, 1) }()
+		time.Sleep(15 * time.Millisecond)
+		go func() { defer wg.Done(); perr = mp.put(e.txs[op.Tx]); putAt = atomic.AddInt32(&seq, 1) }()
+		time.Sleep(25 * time.Millisecond)
+		mp.Unlock()
+		wg.Wait()
+		o.Res = errName(perr)
+		if blockAt < putAt {
+			o.Extra = append(o.Extra, "order:block-first")
+		} else {
+			o.Extra = append(o.Extra, "order:put-first")
+		}
 	case "exist":
 		if mp.exist(e.txs[op.Tx].GetHash()) != nil {
 			o.Res = "yes"
@@ -443,5 +468,113 @@ func TestVerifC13Engine(t *testing.T) {
 		b, _ := json.Marshal(res)
 		fmt.Fprintln(w, string(b))
 		e.sdb.Close()
+	}
+}
+
+// ---------------------------------------------------------------- list level
+type c13LOp struct {
+	Op     string `json:"op"` // put | remove | filter | get
+	ID     int    `json:"id"`
+	Nonce  uint64 `json:"nonce"`
+	Amount uint64 `json:"amount"`
+	Bal    uint64 `json:"bal"`
+}
+type c13LCase struct {
+	Base [2]uint64 `json:"base"`
+	Ops  []c13LOp  `json:"ops"`
+}
+type c13LObs struct {
+	Res     string `json:"res"`
+	Diff    int    `json:"diff"`
+	Base    uint64 `json:"base"`
+	Ready   int    `json:"ready"`
+	Txs     []int  `json:"txs"`
+	Nonces  []uint64 `json:"nonces"`
+	Removed []int  `json:"removed"`
+	Got     []int  `json:"got"`
+}
+
+// TestVerifC13List drives a real txList directly (Put / RemoveTx / FilterByState / Get with
+// arbitrary nonces, including nonces at and below the base).
+func TestVerifC13List(t *testing.T) {
+	in, err := os.Open(os.Getenv("VERIF_IN"))
+	if err != nil {
+		t.Skip("no VERIF_IN")
+	}
+	defer in.Close()
+	out, _ := os.Create(os.Getenv("VERIF_OUT"))
+	defer out.Close()
+	w := bufio.NewWriter(out)
+	defer w.Flush()
+	zerolog.SetGlobalLevel(zerolog.Disabled)
+	serverCtx := config.NewServerContext("", "")
+	cfg := serverCtx.GetDefaultConfig().(*config.Config)
+	mp := NewMemPoolService(cfg, nil)
+	mp.bestBlockInfo = &types.BlockHeaderInfo{No: 1}
+	acc := c13Addr(0)
+	sc := bufio.NewScanner(in)
+	sc.Buffer(make([]byte, 1<<20), 1<<26)
+	for sc.Scan() {
+		var c c13LCase
+		if err := json.Unmarshal(sc.Bytes(), &c); err != nil {
+			t.Fatal(err)
+		}
+		st := func(n, b uint64) *types.State { return &types.State{Nonce: n, Balance: new(big.Int).SetUint64(b).Bytes()} }
+		tl := newTxList(acc, st(c.Base[0], c.Base[1]), mp)
+		byHash := map[types.TxID]int{}
+		mk := func(op *c13LOp) types.Transaction {
+			tx := &types.Tx{Body: &types.TxBody{Nonce: op.Nonce, Account: acc, Recipient: c13Addr(1),
+				Amount: new(big.Int).SetUint64(op.Amount).Bytes(), Payload: []byte{byte(op.ID), byte(op.ID >> 8)}, Type: types.TxType_TRANSFER}}
+			tx.Hash = tx.CalculateTxHash()
+			byHash[types.ToTxID(tx.Hash)] = op.ID
+			return types.NewTransaction(tx)
+		}
+		made := map[int]types.Transaction{}
+		ids := func(l []types.Transaction) []int {
+			r := []int{}
+			for _, x := range l {
+				r = append(r, byHash[types.ToTxID(x.GetHash())])
+			}
+			return r
+		}
+		var res []c13LObs
+		for i := range c.Ops {
+			op := &c.Ops[i]
+			o := c13LObs{Res: "ok", Removed: []int{}, Got: []int{}}
+			switch op.Op {
+			case "put":
+				tx := mk(op)
+				made[op.ID] = tx
+				d, err := tl.Put(tx)
+				o.Diff, o.Res = d, errName(err)
+			case "remove":
+				tx, ok := made[op.ID]
+				if !ok {
+					tx = mk(op)
+				}
+				d, removed := tl.RemoveTx(tx.GetTx())
+				o.Diff = d
+				if removed != nil {
+					o.Removed = ids([]types.Transaction{removed})
+				} else {
+					o.Res = "notfound"
+				}
+			case "filter":
+				d, removed := tl.FilterByState(st(op.Nonce, op.Bal))
+				o.Diff = d
+				o.Removed = ids(removed)
+			case "get":
+				o.Got = ids(tl.Get())
+			}
+			o.Base, o.Ready = tl.base.GetNonce(), tl.ready
+			o.Txs = ids(tl.list)
+			o.Nonces = []uint64{}
+			for _, x := range tl.list {
+				o.Nonces = append(o.Nonces, x.GetBody().GetNonce())
+			}
+			res = append(res, o)
+		}
+		b, _ := json.Marshal(res)
+		fmt.Fprintln(w, string(b))
 	}
 }
